@@ -171,6 +171,16 @@ def harness(wrapped=False):
     if _H[0] is None:
         from ..plrun import BuiltinHarness
 
+        try:  # safety net for the shared machine: no worker may grow beyond 6 GB
+            import resource
+
+            soft, hard = resource.getrlimit(resource.RLIMIT_AS)
+            cap = 6 * 2 ** 30
+            if soft == resource.RLIM_INFINITY or soft > cap:
+                resource.setrlimit(resource.RLIMIT_AS, (cap if hard == resource.RLIM_INFINITY else min(cap, hard), hard))
+        except Exception:  # noqa
+            pass
+
         _H[0] = {False: BuiltinHarness(), True: BuiltinHarness(wrapper_program())}
     return _H[0][wrapped]
 
@@ -532,7 +542,7 @@ def _size(n):
     magnitude before large, positive before negative"""
     if isinstance(n, int):
         return (0, abs(n), n < 0)
-    return (n != n or abs(n) == float("inf") or n != int(n), abs(n), n < 0)
+    return (1 + (n != n or abs(n) == float("inf") or n != int(n)), abs(n), n < 0)
 
 
 def _simpler_numbers(n):
@@ -646,7 +656,16 @@ def candidates(case):
             if isinstance(e, (list, int, float)):
                 yield dict(case, e=e)
     elif k == "cmp":
+        if isinstance(case["a"], (int, float)) and isinstance(case["b"], (int, float)):
+            for x, y in ((0, 0), (0, 0.0), (0.0, 0), (0.0, 0.0), (0, 1), (1, 0)):  # both sides together
+                sa, sb = _size(case["a"]), _size(case["b"])
+                if _size(x) <= sa and _size(y) <= sb and (_size(x) < sa or _size(y) < sb):
+                    yield dict(case, a=x, b=y)
         for side in ("a", "b"):
+            if isinstance(case[side], list):
+                single = R.evaluate(case[side]).single()  # the operand's (unique) reference value
+                if single is not None and single[0] == single[0]:
+                    yield dict(case, **{side: single[0]})
             for e in _tree_variants(case[side]):
                 if isinstance(e, (list, int, float)):
                     yield dict(case, **{side: e})
@@ -684,6 +703,15 @@ def minimise(case, symptom):
             if symptom_of(w) == symptom:
                 _WITNESS_CACHE[symptom] = w
                 return w
+    if symptom.startswith(("crash:", "non-number-result:")) and case["k"] in ("is", "cmp"):
+        # a leaking exception is keyed by its call site: take the first case, in the fixed order of
+        # the quick function grid, that leaks the same exception at the same site
+        for shard in PROP.shards("quick"):
+            if shard[0] in ("const", "fn1", "fn2"):
+                for c in PROP.cases_of(shard, "quick"):
+                    if c.get("lhs") is None and symptom_of(c) == symptom:
+                        _WITNESS_CACHE[symptom] = c
+                        return c
     key = (symptom, canon(case))
     if key not in _MIN_CACHE:
         small = shrink(case, candidates, lambda c: symptom_of(c) == symptom, limit=400)
@@ -824,8 +852,10 @@ class C16(Prop):
         "unjudged: ^ ** exp/2 with a negative integer exponent, negative shift counts, nan/inf operands, "
         "atan(0,0), float overflow / undefined values (error or inf/nan accepted, never a Python exception)",
         "float values are compared with relative tolerance 1e-9 (libm); the sign of zero is not judged",
-        "not enumerated: integer ** / ^ with |base| > 1 and an exponent beyond 10000 (unbounded-integer resource "
-        "exhaustion, the implementation computes for minutes); results of more than 10000 bits are unjudged",
+        "not enumerated: integer ** / ^ with |base| > 1 and an exponent beyond 10000, integer << with a shift "
+        "count beyond 10000 (unbounded-integer resource exhaustion: the implementation computes for minutes or "
+        "raises MemoryError); results of more than 10000 bits are unjudged; workers run under a 6 GB address-space "
+        "limit as a safety net",
         "term builtins: an answer or failure where Prolog raises an error is unjudged (not a 'supported mode'); "
         "calls outside the implementation's declared check_mode table may raise any ProbLogError; '.' and '[|]' "
         "are both accepted as list constructor; callable([]), plus/3 on non-integers, atom_number/2 on exotic "
@@ -877,6 +907,8 @@ class C16(Prop):
                 for y in ops:
                     if op in ("**", "^") and isinstance(x, int) and isinstance(y, int) and abs(x) > 1 and abs(y) > 10000:
                         continue  # an integer of > 10**5 bits: a resource question, not an arithmetic one
+                    if op == "<<" and isinstance(x, int) and isinstance(y, int) and y > 10000:
+                        continue  # the same: 1 << 2**31 is a 256 MB integer
                     for c in self._with_lhs(["%s" % op, x, y]):
                         yield c
         elif kind == "fn1":
